@@ -312,6 +312,7 @@ func C20(c *Ctx) {
 	}
 	c.unsafeUse()
 	c.globalShare()
+	c.capturedShare()
 	c.goArgs()
 	c.singleWrite()
 	c.registriesInitOnly()
@@ -417,6 +418,37 @@ func (c *Ctx) unsafeUse() {
 					if a, ok := ro.v.(*ssa.Alloc); ok {
 						if s := isSharedStruct(derefType(a.Type())); s != "" && recv != ssa.Value(a) {
 							shared = "pointer held in a field of " + s
+						}
+						// a local filled with *p, p held in shared state: a shallow copy, which
+						// still shares the object's internals (the generator's source, the
+						// buffer's backing array)
+						if recv == ssa.Value(a) && a.Referrers() != nil {
+							for _, ref := range *a.Referrers() {
+								st, isSt := ref.(*ssa.Store)
+								if !isSt || st.Addr != ssa.Value(a) {
+									continue
+								}
+								ld, isLd := st.Val.(*ssa.UnOp)
+								if !isLd || ld.Op != token.MUL {
+									continue
+								}
+								for _, r2 := range c.rootOf(ld.X, 0) {
+									switch r2.kind {
+									case "global":
+										shared = "shallow copy of the object held in package-level " + r2.name
+									case "param":
+										if s := isSharedStruct(r2.v.Type()); s != "" {
+											shared = "shallow copy of the object held in a field of " + s
+										}
+									case "local":
+										if a2, ok := r2.v.(*ssa.Alloc); ok && a2 != a {
+											if s := isSharedStruct(derefType(a2.Type())); s != "" {
+												shared = "shallow copy of the object held in a field of " + s
+											}
+										}
+									}
+								}
+							}
 						}
 					}
 				}
@@ -784,4 +816,74 @@ func (c *Ctx) poolReset(fn *ssa.Function, get *ssa.Call) {
 		}
 		r.Check(len(missing) == 0, "C20.pool", name, "reset of "+Short(o.Type().String())+" from sync.Pool", posf(c, get), "every field is overwritten before use", "the object taken from the pool was used by an earlier request and these fields are not reset before use: "+strings.Join(missing, ", ")+": the earlier request's values are visible to this one")
 	}
+}
+
+var readOnlyCollectionCalls = map[string]bool{
+	"(net/url.Values).Get": true, "(net/url.Values).Encode": true, "(net/url.Values).Has": true,
+	"(net/http.Header).Get": true, "(net/http.Header).Values": true, "(net/http.Header).Clone": true,
+	"strings.Join": true, "sort.SearchStrings": true,
+}
+
+// capturedShare: a map or slice created when the handler chain is wired and
+// captured by the per-request closure is one object for every request through
+// that handler. The ownership rule sees direct writes; here: handing it to a
+// function or method that is not known to only read it (vals.Set(...) writes
+// the map inside net/url).
+func (c *Ctx) capturedShare() {
+	r := c.R
+	n := 0
+	for _, fn := range c.P.Funcs {
+		par := fn.Parent()
+		if par == nil || !c.isRequestTime(fn) || c.isRequestTime(par) {
+			continue
+		}
+		name := FuncName(fn)
+		for _, fv := range fn.FreeVars {
+			t := derefType(fv.Type())
+			_, isMap := t.Underlying().(*types.Map)
+			_, isSlice := t.Underlying().(*types.Slice)
+			if !isMap && !isSlice {
+				continue
+			}
+			n++
+			bad, at := "", c.P.Pos(fn.Pos())
+			var walk func(v ssa.Value, d int)
+			walk = func(v ssa.Value, d int) {
+				if v.Referrers() == nil || d > 4 || bad != "" {
+					return
+				}
+				for _, ref := range *v.Referrers() {
+					switch x := ref.(type) {
+					case *ssa.UnOp:
+						walk(x, d+1) // load of the captured cell
+					case *ssa.ChangeType:
+						walk(x, d+1)
+					case *ssa.Phi:
+						walk(x, d+1)
+					case ssa.CallInstruction:
+						cn := Callee(x)
+						if b, ok := x.Common().Value.(*ssa.Builtin); ok && (b.Name() == "len" || b.Name() == "cap") {
+							continue
+						}
+						if readOnlyCollectionCalls[cn] {
+							continue
+						}
+						bad, at = "handed to "+cn, posf(c, x)
+					case *ssa.MakeClosure:
+						// captured further down: follow into the nested closure's free variable
+						if nf, ok := x.Fn.(*ssa.Function); ok {
+							for i, b := range x.Bindings {
+								if b == v && i < len(nf.FreeVars) {
+									walk(nf.FreeVars[i], d+1)
+								}
+							}
+						}
+					}
+				}
+			}
+			walk(fv, 0)
+			r.Check(bad == "", "C20.captured", name, "captured "+fv.Name(), at, "only read here", "the "+t.String()+" "+fv.Name()+" was created when the handler chain was wired and is shared by every request through this handler; here it is "+bad+", which may write it: concurrent requests race on it and see each other's entries")
+		}
+	}
+	r.Extra["captured_collections"] = n
 }
